@@ -195,6 +195,31 @@ func init() {
 					}
 				}
 			}
+			// long walk on one session per program: the whole menu interleaved with moves, three rounds
+			for _, pn := range []string{"three-blocks", "loop-with-gap", "sym-blocks"} {
+				p := progByName(pn)
+				s0, err := uix.New(p.Segs, p.Entry)
+				if err != nil {
+					continue
+				}
+				n := s0.ListView().Lines.Len()
+				var hist []uiLine
+				moves := []string{"m 1 2", "m 0 5", "m 2 1", fmt.Sprintf("m %d 0", n-3), "m 5 0", "m 0 3"}
+				for round := 0; round < 3; round++ {
+					for i, v := range []int{0, 1, 2, 3, n - 2, n - 1, n, n + 1} {
+						hist = append(hist, uiLine{Line: fmt.Sprintf("d %d", v)}, uiLine{Line: "f addi"}, uiLine{Line: fmt.Sprintf("g %d", (v+round)%(n+2))},
+							uiLine{Line: "f ^$"}, uiLine{Line: fmt.Sprintf("u %d", v)}, uiLine{Line: "entry"}, uiLine{Line: "f Block"}, uiLine{Line: moves[(i+round)%len(moves)]}, uiLine{Line: "f jal"})
+					}
+				}
+				_, f := c31Replay(c31Case{Prog: pn, History: hist})
+				r.Eval(1)
+				r.Trans(len(hist))
+				if f != nil {
+					f.Sig += " (long walk)"
+					r.Report(f)
+					r.Outcome(f.Sig)
+				}
+			}
 			r.Sample(c31Case{Prog: "three-blocks", History: []uiLine{{Line: "m 0 5"}, {Line: "entry"}, {Line: "f ^$"}}})
 		},
 		Replay: func(r *eng.Run, raw json.RawMessage) *eng.Fail {
